@@ -55,5 +55,6 @@ def run(ctx):
         "model_impl_disagreements": len(m1) + len(m2),
     })
     conncheck.run_conn(ctx, {"C14"})
+    conncheck.run_latereader(ctx)
     ctx.assumptions += ["str::to_uppercase is an oracle of the command-handler model (its output is a Rust String, hence valid UTF-8)",
                         "usize::to_string / i64::to_string = Decimal.print_Z (compared byte for byte on every generated value)"]
